@@ -286,7 +286,11 @@ class Core : public ResultCoreT<Type, Ret, E>, public FuncCore<Func> {
       this->_func.storage.~Storage();
       if constexpr (is_task_v<decltype(async)>) {
         core->StoreCallback(*this);
-        return Step<SymmetricTransfer>(*this, *MoveToCaller(core));
+        // The head of the inner chain can be any Job (Schedule, LazyContract, MakeTask, coroutine),
+        // so start it the way detail::Start does
+        auto* head = MoveToCaller(core);
+        head->_executor->Submit(*head);
+        return Noop<SymmetricTransfer>();
       } else {
         return core->template SetInline<SymmetricTransfer>(*this);
       }
